@@ -2,7 +2,7 @@ from checks import both, EX
 
 CHECK = {
     'level': 'exploration',
-    'rule': ('[reshape] an occupied object is re-allocated / re-set with related shapes (same byte count and another element size, a few elements more or fewer, count and size exchanged, same shape again) at 240 bytes .. 1 MiB, sole owner and with co-owning offset views; [many views] 70 000 (thorough 300 000) simultaneous views of one library or external buffer, release()/lifetime checked at 2, 3, 254..258, 65534..65538 referrers going up and down; '
+    'rule': ('[degenerate shapes] alloc/set with nm == 0 (also over a real buffer), sz == 0 (counts up to SIZE_MAX), NULL buffers, and slices / unslice / release / at of such objects, in an own closure scope and one random draw in eight; [reshape] an occupied object is re-allocated / re-set with related shapes (same byte count and another element size, a few elements more or fewer, count and size exchanged, same shape again) at 240 bytes .. 1 MiB, sole owner and with co-owning offset views; [many views] 70 000 (thorough 300 000) simultaneous views of one library or external buffer, release()/lifetime checked at 2, 3, 254..258, 65534..65538 referrers going up and down; '
              'cstl_array_alloc/set/slice/unslice/reset/release/at/at_const/data/size driven over 2-4 individually allocated '
              'array objects and up to 3 live buffers (internal via alloc, external via set on harness blocks of exactly nm*sz '
              'bytes; also a second, separate set() over a block that another object - or the object itself - already wraps, with '
@@ -31,11 +31,11 @@ CHECK = {
              'non-trivial when >= 2 objects are non-empty or some view is partial.'
              ' Plus (harness/huge.c, the library as shipped without sanitizer) untouched library allocations of 2^33 one-byte, 2^30+9 eight-byte, 2^32+2^31+11 one-byte and 3*2^32/12 twelve-byte elements and external (never dereferenced) buffers of 2^40, 2^44 and 2^62 elements: at(i) == base+(off+i)*elem for indices around 2^31/elem and 2^32/elem, at(size) and at(size+2^32) abort, slices starting above 2^32, slice of slice in place, unslice, and the bad slices end < beg (beg above 2^32, end small), past the end, past the end of the buffer from a view.'),
     'assumptions': ['the huge scenarios need 3-12 GiB of free memory; one that the machine cannot back (MemAvailable too small, or the C library refuses the request) is skipped and counted (huge.skipped.*), nothing is concluded from it',
-                    'element sizes >= 1; external buffers are harness blocks of exactly nm*sz bytes, freed by the harness only after a successful release or after the last referrer went away',
+                    'element sizes 0 (zero-sized elements), 1, 2, 3, 4, 8 ...; element counts of 0 also over a real buffer; external buffers are harness blocks of exactly nm*sz bytes, freed by the harness only after a successful release or after the last referrer went away',
                     'array objects are never copied bitwise (individually allocated; cstl_array_init and CSTL_ARRAY_INITIALIZER alternate)',
                     'two separate set() wrappers over one caller-owned block are legal client behaviour (the library cannot know); a second wrapper never describes more bytes than the block has',
                     'requests above the 64 MiB allocator cap count as allocations that fail',
-                    'an alloc/set that leaves the object empty without an observed allocator failure is tolerated and counted (alloc.empty-without-failure), as the statement does not forbid it',
+                    'an ALLOC that leaves the object empty without an observed allocator failure is tolerated and counted (alloc.empty-without-failure), as the statement does not forbid it; a SET with a non-NULL buffer and no failed allocation must adopt the buffer (also for nm == 0 or sz == 0): release() is the documented way for the sole user to get its buffer back',
                     'gcc 12 ASan/UBSan runtimes; harness reference model',
                     'dbg-asan keeps the library asserts live; rel-asan is the NDEBUG build as shipped'],
     'runs': [
@@ -58,7 +58,7 @@ LEVEL = {
              'model: exact element addresses inside a located live allocation, writes through at(), armed abort expectations for '
              'bad indices and bad slices (128-bit bound arithmetic), allocator-event accounting of buffer lifetime, release '
              'semantics, empty object after failed/unrepresentable allocation. Held means: on the executions observed.'),
-    'note': 'trusts gcc 12 sanitizer runtimes and the harness reference model; element sizes >= 1; >64 MiB requests are refused by the interposed allocator; objects never copied bitwise',
+    'note': 'trusts gcc 12 sanitizer runtimes and the harness reference model; element sizes >= 0; >64 MiB requests are refused by the interposed allocator; objects never copied bitwise',
     'technique': 'runtime monitoring: closure + random workloads, reference-model oracle after every call, allocator/abort interposition, ASan/UBSan',
     'design_ref': 'DESIGN.md section 3 (C14)',
 }
